@@ -379,11 +379,16 @@ def compare(ex, tr, native_out, conc_acts, dumps_by_step, rets_by_step, tol=1e-9
     return (not diffs), diffs
 
 
+REL_ONLY = [False]
+
+
 def close(a, b, tol):
     if a != a or b != b:
         return a != a and b != b
     if a == b:
         return True
+    if REL_ONLY[0]:
+        return abs(a - b) <= tol * max(abs(a), abs(b))
     return abs(a - b) <= tol * max(1.0, abs(a), abs(b))
 
 
@@ -430,6 +435,18 @@ def confirm(ex_factory, harness, finding, cfg, srcs, tag, tol=1e-9):
         ok, diffs = compare(ex2, tr, so, tr.acts, tr.dumps, tr.rets, tol)
         return dict(confirmed=False, how="native run is clean under ASan/UBSan (pointer-formation-only UB or not reproducible); "
                     "state %s llsym" % ("matches" if ok else "differs from"), text=csrc, c_file=cpath)
+    if finding.kind == "RANGE":
+        # the exact-real run leaves the floating-point range in an intermediate result: the finding is confirmed when the
+        # IEEE run of the real code departs from the exact value of the final state (relative comparison, no absolute floor)
+        REL_ONLY[0] = True
+        try:
+            ok, diffs = compare(ex2, tr, so, tr.acts, tr.dumps, tr.rets, tol)
+        finally:
+            REL_ONLY[0] = False
+        if not ok and "END" in so:
+            return dict(confirmed=True, how="native IEEE run departs from the exact value although the exact result is representable: %s" % "; ".join(diffs[:2]),
+                        text=csrc, c_file=cpath)
+        return dict(confirmed=False, how="native IEEE run agrees with the exact value (the range excursion is absorbed)", text=csrc, c_file=cpath)
     ok, diffs = compare(ex2, tr, so, tr.acts, tr.dumps, tr.rets, tol)
     if san:
         return dict(confirmed=True, how="sanitizer report during replay", text=csrc, c_file=cpath)
